@@ -11,7 +11,7 @@
     parsing.py:300-343                    `parse_known_args` (constructor config files, `--config_path` files, argv)
     parsing.py:586-597, 794-909           post-processing (`constructor_arguments`, instantiation)
 
-  Fragment: dataclasses whose fields are `int` / `str` leaves (all `cmd=True`, `init=True`) or nested
+  Fragment: dataclasses whose fields are scalar leaves (`int` / `str`, or `float` / `bool` / `List[int]` as opaque atoms) (all `cmd=True`, `init=True`) or nested
   non-optional dataclasses, values of the right type for their leaf (so argparse's conversion of string
   defaults is the identity), distinct destinations.  JSON-like values are `J`; Python `None` is `J.null`.
   Dicts are association lists with distinct keys (first occurrence wins in every lookup).
@@ -26,6 +26,9 @@ inductive J
   | null
   | int (i : Int)
   | str (s : Str)
+  /-- any other scalar leaf value (bool, float, list of ints), kept as its canonical JSON text: the layering code
+      never looks inside a value, it only tests `is None` and `isinstance(v, dict)` -/
+  | atom (repr : Str)
   | dict (kvs : List (Str × J))
 
 abbrev Dict := List (Str × J)
